@@ -20,7 +20,7 @@ for i in ids:
     else:
         try:
             for p in props:
-                r = subprocess.run(['./check', p, 'quick'], cwd='/verif', capture_output=True, text=True)
+                r = subprocess.run(['./check', p, 'quick'], cwd='/verif', capture_output=True, text=True, env=dict(__import__('os').environ, VERIF_EVIDENCE_DIR='/verif/build/seed-evidence'))
                 lines = [l for l in r.stdout.split('\n') if l.startswith(('VIOLATION', 'UNDECIDED'))]
                 first = lines[0][:300] if lines else ''
                 ob = ''
